@@ -17,7 +17,7 @@ import numpy as np
 from . import core, files, iosim, snapshot
 from .dasksim import SimScheduler, SchedPlan, SimAbort
 from .inject import SimInterrupt, SimOSError
-from .sched import Sched, SimLock
+from .sched import Abandon, Sched, SimLock
 
 _MODEL_CACHE = {}
 
@@ -343,7 +343,7 @@ class Client:
                             check_signal(ctx, who, self.models[rj], self.readers[rj], o, n, z2,
                                          "read_after_client_mutation")
                     self.rec(ci, kind, ri, None, None, "ok")
-            except Stop:
+            except (Stop, Abandon):
                 return
             except core.Violation:
                 raise
@@ -452,7 +452,7 @@ def run_files(ctx, faults=False):
                     if not sched.stop:
                         sched.stop = True
                         sched.violation = v
-                except Stop:
+                except (Stop, Abandon):
                     pass
 
             th = sched.spawn(f"T{ti}", body)
@@ -471,12 +471,21 @@ def run_files(ctx, faults=False):
             return orig_yield(site)
 
         sched.yield_point = yield_point
-        sched.run()
+        from .sched import Deadlock
+        try:
+            sched.run()
+        except Deadlock as e:
+            if sched.violation is not None:
+                raise sched.violation
+            held = lock is not None and lock.owner is not None
+            ctx.violate("deadlock", f"{models[0].rs['cls']}.read:lock",
+                        f"all remaining callers are blocked for ever ({e}); the lock passed as lock= is "
+                        f"{'still held by ' + lock.owner.name + ' (done=' + str(lock.owner.done) + ')' if held else 'free'}")
         if sched.violation is not None:
             raise sched.violation
         # ---- after the run ---------------------------------------------------
         for t in sched.threads:
-            if t.exc is not None and not isinstance(t.exc, (Stop,)):
+            if t.exc is not None and not isinstance(t.exc, (Stop, Abandon)):
                 raise t.exc
         if io.open_handles != 0:
             ctx.probe("handle_left_open_after_all_calls")
@@ -639,7 +648,7 @@ def run_store(ctx):
                     if not sched.stop:
                         sched.stop = True
                         sched.violation = v
-                except Stop:
+                except (Stop, Abandon):
                     pass
 
             sched.spawn(f"T{ti}", body)
@@ -656,7 +665,7 @@ def run_store(ctx):
         if sched.violation is not None:
             raise sched.violation
         for t in sched.threads:
-            if t.exc is not None and not isinstance(t.exc, (Stop,)):
+            if t.exc is not None and not isinstance(t.exc, (Stop, Abandon)):
                 raise t.exc
     finally:
         _set_store_sched(None)
